@@ -40,7 +40,9 @@ static jwk_set_t *do_load(jwk_set_t *set, const std::string &doc, int how) {
 }
 
 // returns violated clause or ""
-static std::string run_seq(const std::vector<Op> &ops) {
+// sparse = the state is inspected only at the end (and by the operations themselves): a full scan after every step walks the
+// list from index 0 and so puts any lookup state the set keeps (cursor, last hit) back in order before the next operation uses it
+static std::string run_seq(const std::vector<Op> &ops, bool sparse = false) {
   TRACE.clear(); g_counter = 0;
   Model m; jwk_set_t *set = jwks_create(NULL);
   if (!set) return "create-null";
@@ -48,7 +50,8 @@ static std::string run_seq(const std::vector<Op> &ops) {
   auto check_state = [&]() -> std::string {
     size_t c = jwks_item_count(set);
     if (c != m.items.size()) return "count-differs";
-    for (size_t i = 0; i < c; i++) {
+    if (jwks_item_get(set, c) != nullptr) return "get-at-count-not-null";   // asked before anything else walks the list
+    for (size_t i = c; i-- > 0;) {   // from the back
       const jwk_item_t *it = jwks_item_get(set, i); if (!it) return "get-null-below-count";
       if (item_tag(it) != m.items[i].tag) return "order-or-identity-differs";
       if ((jwks_item_error(it) != 0) != m.items[i].bad) return "item-error-flag-differs";
@@ -97,8 +100,8 @@ static std::string run_seq(const std::vector<Op> &ops) {
     case O_FREE_ALL: { int r = jwks_item_free_all(set); if (r != (int)cnt) bad = "free-all-return"; m.items.clear(); break; }
     case O_ERR_CLEAR: { jwks_error_clear(set); m.set_error = 0; break; }
     }
-    if (bad.empty()) bad = check_state();
-    if (!bad.empty()) { bad += std::string("-after-") + ON[o.k % O_N]; break; }
+    if (bad.empty() && (!sparse || &o == &ops.back())) bad = check_state();
+    if (!bad.empty()) { bad += std::string("-after-") + ON[o.k % O_N] + (sparse ? "(state-inspected-at-the-end-only)" : ""); break; }
   }
   jwks_free(set);
   return bad;
@@ -137,6 +140,7 @@ static std::string leak_culprit() {
 static bool one(const std::vector<Op> &ops, bool count, std::string *why = nullptr) {
   Stats &st = stats(); CUR = &ops;
   std::string r = run_seq(ops);
+  if (r.empty()) r = run_seq(ops, true);
   if (r.empty() && LEAKCHK) {
     if (g_single) { if (__lsan_do_recoverable_leak_check()) r = "leak-after-sequence"; }
     else { BATCH.push_back(ops); if (BATCH.size() >= BATCH_N) { if (__lsan_do_recoverable_leak_check()) r = leak_culprit(); BATCH.clear(); if (!r.empty() && CUR != &ops) { std::string sig = "C16:" + r; if (why) *why = r; if (!st.is_known(sig)) { st.violation(sig, "LeakSanitizer reports a leak after this operation sequence", case_json(*CUR)); } return true; } } }
